@@ -43,9 +43,10 @@ fn request_of(op: Op, front: SocketAddress) -> RequestType {
     match op {
         Op::Add(i) => RequestType::AddCertificate(add(i)),
         Op::Remove(i) => RequestType::RemoveCertificate(RemoveCertificate { address: front, fingerprint: cfgspace::fp(CERTS[i as usize].pem) }),
-        Op::Replace(old, new) => {
+        Op::Replace(old, new) | Op::ReplaceUp(old, new) => {
             let a = add(new);
-            RequestType::ReplaceCertificate(ReplaceCertificate { address: front, new_certificate: a.certificate, old_fingerprint: cfgspace::fp(CERTS[old as usize].pem), new_expired_at: a.expired_at })
+            let fp = cfgspace::fp(CERTS[old as usize].pem);
+            RequestType::ReplaceCertificate(ReplaceCertificate { address: front, new_certificate: a.certificate, old_fingerprint: if matches!(op, Op::ReplaceUp(..)) { fp.to_ascii_uppercase() } else { fp }, new_expired_at: a.expired_at })
         }
         Op::ReplaceBad(old) => RequestType::ReplaceCertificate(ReplaceCertificate {
             address: front,
@@ -215,7 +216,7 @@ fn histories(tier: Tier) -> Vec<Vec<Op>> {
         let mut next = vec![];
         for h in &frontier {
             for &op in &alpha {
-                if let Op::Replace(a, b) = op {
+                if let Op::Replace(a, b) | Op::ReplaceUp(a, b) = op {
                     let mut live = vec![];
                     for &o in h.iter() {
                         spec_apply(&mut live, o);
